@@ -212,12 +212,24 @@ lemma("nhits_none", {"region": "tuple[int,int]", "S": STO, "a": "int", "d": "int
       requires=["0 <= a", "d >= 0", "a + d <= len(S)", "all(not hits(region, S[i]) for i in range(a, a + d))"],
       ensures=["nhits(region, S, a + d) == nhits(region, S, a)"], induct="d", base="0")
 
+@spec("list[tuple[int,rec:Aligned]], dict[int,int], dict[int,int] -> bool")
+def raw_ok(S, si, ei):
+    # what a sequence of add_alignment calls leaves behind: for every bin that some alignment starts (ends) in, the index of the
+    # first such alignment; no other keys
+    return (all(0 <= si[p] < len(S) and sb(S, si[p]) == p and all(sb(S, i) != p for i in range(si[p])) for p in si) and
+            all(sb(S, i) in si for i in range(len(S))) and
+            all(0 <= ei[p] < len(S) and eb(S, ei[p]) == p and all(eb(S, i) != p for i in range(ei[p])) for p in ei) and
+            all(eb(S, i) in ei for i in range(len(S))))
+
+
 contract(A + "InMemoryAlignmentStorage.fill_index", {"self": "rec:InMemoryAlignmentStorage"}, returns="none", props=["C05"],
          modifies=["self.alignment_start_index", "self.alignment_end_index", "self.index_filled"], trusted=True,
+         note="ASSUMED by get_alignments. A deductive attempt (raw first-occurrence index as precondition, two downward-sweep "
+              "invariants) discharged 33 of 34 obligations, one preservation VC stayed unknown within budget, so nothing of it is "
+              "counted; decided only by the bounded native check C05.inmemory_index (real add_alignment + fill_index)",
          requires=["self.region is not None", "sorted_by_start(self.alignment_storage)"],
          ensures=["index_ok(self.alignment_storage, self.alignment_start_index, self.alignment_end_index, "
-                  "self.region[0] // 256, self.region[1] // 256 + 1)"],
-         note="assumed here; decided by the bounded native check C05.inmemory_index (real add_alignment + fill_index on random sorted inputs)")
+                  "self.region[0] // 256, self.region[1] // 256 + 1)"])
 
 
 def _mem_args(argmap):
